@@ -34,7 +34,13 @@ DEF = re.compile(r"^define\s+.*?@([\w.$]+)\((.*?)\)\s*[^{]*\{\s*$")
 def parse_module(text):
     funcs = {}
     structs = {}
-    lines = text.splitlines()
+    raw_lines = text.splitlines()
+    lines = []
+    for l in raw_lines:
+        if l.lstrip().startswith("to label") and lines:
+            lines[-1] += " " + l.strip()
+        else:
+            lines.append(l)
     i = 0
     while i < len(lines):
         l = lines[i]
@@ -159,9 +165,21 @@ class Bool:
         self.v, self.why = v, why
 
 
+HUGE = 1 << 62
+
+
 def decide_cmp(pred, a, b, signs):
     d = a - b
     s = sign(d, signs)
+    # no-overflow assumption of the polynomial domain: a symbolic quantity compared with a constant of magnitude >= 2^62 (range checks
+    # against numeric_limits) lies strictly inside (-2^62, 2^62)
+    if s not in (ZERO, POS, NEG) and pred in ("eq", "ne", "slt", "sle", "sgt", "sge"):
+        for x, y, flip in ((a, b, False), (b, a, True)):
+            if y.is_const() and abs(y.const_value()) >= HUGE and not x.is_const():
+                s = (NEG if y.const_value() > 0 else POS)
+                if flip:
+                    s = POS if s == NEG else NEG
+                break
     if pred == "eq":
         if s == ZERO:
             return True
@@ -221,6 +239,8 @@ def sdiv(a, b, signs):
 class Evaluator:
     def __init__(self, funcs, structs):
         self.funcs, self.structs = funcs, structs
+        self.extcalls = []
+        self.record_external = None
 
     def run(self, fname, args, signs, max_steps=20000):
         """args: list of Poly (one per parameter); returns Poly or Bool"""
@@ -230,6 +250,7 @@ class Evaluator:
         if len(args) != len(f.params):
             raise Inconclusive("arity of %s: %d params, %d args" % (fname, len(f.params), len(args)))
         env = {}
+        self.extcalls = []
         for (pn, pt), a in zip(f.params, args):
             env[pn] = a
         # unnamed entry block label is %<number of params> when parameters are unnamed
@@ -269,6 +290,8 @@ class Evaluator:
             return Bool(True)
         if tok == "false":
             return Bool(False)
+        if re.match(r"^-?\d+\.\d+e[+-]\d+$", tok) or re.match(r"^0x[0-9A-Fa-f]+$", tok):
+            return atom("float", tok)
         if tok in ("undef", "poison"):
             raise Inconclusive("undef/poison operand")
         if tok.startswith("%"):
@@ -406,6 +429,12 @@ class Evaluator:
                 v = atom("ite", v.why, Poly.const(1), Poly.const(0)) if v.v is None else Poly.const(1 if v.v else 0)
             env[dst] = v
             return None
+        if op == "invoke":
+            mm = re.match(r"^invoke .*?@([\w.$]+)\((.*)\)\s*(?:#\d+)?\s*to label (\S+) unwind label (\S+)", rhs)
+            if not mm:
+                raise Inconclusive("indirect invoke")
+            r = self.step((dst + " = " if dst else "") + "call void @%s(%s)" % (mm.group(1), mm.group(2)), env, signs, prev, cur, entry_label, fname)
+            return ("br", mm.group(3))
         if op == "call":
             mm = re.match(r"^call .*?@([\w.$]+)\((.*)\)", rhs)
             if not mm:
@@ -449,7 +478,39 @@ class Evaluator:
                 return None
             if callee in ("__assert_fail", "abort", "_ZSt9terminatev", "__cxa_throw", "_ZSt20__throw_length_errorPKc"):
                 raise AssertFires("%s reached in %s (block %s): %s" % (callee, fname, cur, argstr[:120]))
+            if callee in ("__cxa_allocate_exception", "__cxa_throw", "_ZSt20__throw_logic_errorPKc"):
+                raise AssertFires("exception thrown in %s (block %s)" % (fname, cur))
+            if callee not in self.funcs and getattr(self, "record_external", None) and self.record_external(callee):
+                vals = []
+                for a in _split_args(argstr):
+                    try:
+                        vals.append(self.val(a.split()[-1], env))
+                    except Inconclusive:
+                        vals.append(None)
+                # by-reference arguments: the value last stored into a stack temporary (None when the argument is not such a slot)
+                stack = env.get("__stack", {})
+                derefs = [stack.get(v) if isinstance(v, Poly) else None for v in vals]
+                self.extcalls.append((callee, vals, derefs))
+                if dst:
+                    env[dst] = atom("ext", callee, len(self.extcalls))
+                return None
             raise Inconclusive("call to %s not inlined in %s" % (callee, fname))
+        if op == "alloca":
+            self.nstack = getattr(self, "nstack", 0) + 1
+            env[dst] = Poly.sym("stack%d" % self.nstack)
+            return None
+        if op == "store" and re.match(r"^store (?:volatile )?i(?:8|16|32) ", rhs):
+            # small integers passed by address to an external routine (Fortran-style flags): remembered only when the slot is a stack temporary
+            mm = re.match(r"^store (?:volatile )?(.+?) (\S+), (.+?)\* (\S+?)(?:,.*)?$", rhs)
+            try:
+                v, p = self.val(mm.group(2), env), self.val(mm.group(4), env)
+            except Inconclusive:
+                return None
+            if isinstance(v, Poly) and isinstance(p, Poly) and any(sy.startswith("stack") for sy in p.symbols()):
+                env.setdefault("__stack", {})[p] = v
+            return None
+        if op == "store" and not re.match(r"^store (?:volatile )?i64 ", rhs):
+            return None      # non-integer data (floating point scalars passed by address): not part of the index algebra
         if op == "store":
             mm = re.match(r"^store (.+?) (\S+), (.+?)\* (\S+?)(?:,.*)?$", rhs)
             v = self.val(mm.group(2), env)
@@ -458,6 +519,9 @@ class Evaluator:
             p = self.val(mm.group(4), env)
             off = p - Poly.sym("out")
             if not off.is_const():
+                if any(sy.startswith("stack") for sy in p.symbols()):
+                    env.setdefault("__stack", {})[p] = v
+                    return None
                 raise Inconclusive("store to an address that is not out+const: %r" % p)
             env.setdefault("__stores", {})[int(off.const_value())] = v
             return None
